@@ -31,6 +31,9 @@ TRUSTED_BASE = [
     'Coq 8.16.1 kernel (coqc), vm_compute; no native_compute',
     'hand-written Gallina model of the anchored code (tie = differential correspondence on this run, see coverage)',
     'harness: case generators, implementation runner, Python->Gallina term printer, constants extractor (gen/Consts.v)',
+    'source translator harness/srcgen/pylite.py (+ specs cal.py, sched.py, fill.py, graph.py): where the cone of the statement file '
+    'contains a gen/Src*.v file, the theorems named *_src_* are about Gallina text translated from the current source on this run; '
+    'the translator and its conventions (DESIGN section 5) are trusted',
     'CPython 3.12 and its stdlib (datetime, csv, json, html, re) are modelled, not verified',
 ]
 
@@ -343,6 +346,10 @@ def finish(ctx, level_text=None):
     cov['axioms_reported_by_Print_Assumptions'] = ctx.proof['axioms']
     cov['print_assumptions'] = ctx.proof.get('print_assumptions')
     cov['proof_files'] = ctx.proof['files']
+    cov['source_text_tie'] = {
+        'generated_from_source_on_this_run': [f for f in ctx.proof['files'] if f.startswith('gen/Src')],
+        'theorems_about_translated_source': [t for t in ctx.proof['theorems'] if '_src_' in t],
+    }
     if not ctx.proof['ok']:
         cov['proof_error'] = ctx.proof.get('error')
     cov['correspondence_mismatches'] = len(ctx.mismatches)
